@@ -24,6 +24,9 @@ def jobs(tier, seed):
     for sel in range(4):
         J.append(dict(name="wiring:explicit:sel%d" % sel, kind="wiring", mode="explicit", sel=sel, timeout=600, cost=50))
         J.append(dict(name="wiring:published:sel%d" % sel, kind="wiring", mode="published", sel=sel, timeout=600, cost=50))
+    for sel in (0, 3):
+        J.append(dict(name="history:published-after-explicit:sel%d" % sel, kind="wiring", mode="published-after-explicit", sel=sel, timeout=600, cost=60))
+        J.append(dict(name="history:second-recipient:sel%d" % sel, kind="wiring", mode="second-recipient", sel=sel, timeout=600, cost=60))
     J.append(dict(name="wiring:decryptor-as-encryptor:sel1", kind="wiring", mode="decryptor", sel=1, timeout=600, cost=50))
     J.append(dict(name="wiring:wrong-selector-encryptor-ignored", kind="wiring", mode="mismatch", sel=3, timeout=600, cost=50))
     J.append(dict(name="refuse:marker", kind="marker", timeout=600, cost=30))
@@ -105,7 +108,18 @@ def run_job(job):
         recipient = UFPrivate.generate()
         other = UFPrivate.generate()
         blk = b2.InitEccAuthBlock(sel)
-        if mode == "explicit":
+        if mode == "published-after-explicit":
+            # an encryptor with an explicit recipient existed before: the default must still be the published key
+            b2.EccDecryptor(sel, other)
+            b2.EccEncryptor(sel, other.public_key).encrypt(key)
+            enc = []
+            rpub = b2.EccEncryptor.DEFAULT_PUBLIC_KEYS[sel][27:]
+        elif mode == "second-recipient":
+            # a block for another recipient was made first (same selector)
+            b2.InitEccAuthBlock(sel).pack(key, [b2.EccEncryptor(sel, other.public_key)])
+            enc = [b2.EccEncryptor(sel, recipient.public_key)]
+            rpub = recipient.public_key.raw
+        elif mode == "explicit":
             enc = [b2.EccEncryptor(sel, recipient.public_key)]
             rpub = recipient.public_key.raw
         elif mode == "decryptor":
@@ -128,7 +142,7 @@ def run_job(job):
             secret = eph.compute_dh_secret(UFPublic(rpub))
             want_ct = stubs.model_cbc_encrypt(stubs.model_sha(secret)[:16], None, key)
             ok = ok and out[66:] == want_ct
-            if ok and mode in ("explicit", "decryptor"):
+            if ok and mode in ("explicit", "decryptor", "second-recipient"):
                 # receiver side: from the block alone + the recipient's private key
                 sec2 = recipient.compute_dh_secret(UFPublic(out[2:66]))
                 ok = stubs.model_cbc_decrypt(stubs.model_sha(sec2)[:16], None, out[66:]) == key
@@ -207,7 +221,14 @@ def replay(job):
             b2.EccEncryptor.DEFAULT_PUBLIC_KEYS[i] = sks[i].verifying_key.to_der()
         recipient = plug.PrivateEccKeyProxy(sks[sel])
         other = plug.PrivateEccKeyProxy(SigningKey.from_secret_exponent(424243, curve=curve))
-        if mode == "explicit":
+        if mode == "published-after-explicit":
+            b2.EccDecryptor(sel, other)
+            b2.EccEncryptor(sel, other.public_key).encrypt(key)
+            enc = []
+        elif mode == "second-recipient":
+            b2.InitEccAuthBlock(sel).pack(key, [b2.EccEncryptor(sel, other.public_key)])
+            enc = [b2.EccEncryptor(sel, recipient.public_key)]
+        elif mode == "explicit":
             enc = [b2.EccEncryptor(sel, recipient.public_key)]
         elif mode == "decryptor":
             enc = [b2.EccDecryptor(sel, recipient)]
